@@ -62,3 +62,18 @@ const (
 	StackGrowHook = stackGrow
 	LimitHook     = limit
 )
+
+// Unit is a program compiled by a caller-supplied (possibly shared) Compiler: its code, the
+// constant pool as it is NOW (the pool belongs to the Compiler), and a way to run it.
+type Unit struct{ b *bytecode }
+
+// CompileUnit compiles expr with c (a Compiler may be used for several expressions).
+func CompileUnit(c *Compiler, expr ast.Expr, env1 *val.Env) *Unit {
+	return &Unit{c.Compile(expr, env1)}
+}
+
+func (u *Unit) Code() []byte          { return append([]byte{}, u.b.code...) }
+func (u *Unit) Consts() []interface{} { return append([]interface{}{}, u.b.cp.data...) }
+func (u *Unit) Run(env *val.Env) *val.Val {
+	return NewVM().Interp(u.b, env)
+}
